@@ -5,7 +5,8 @@ CONSTANTS
   MaxWrite = 3
   Bufs = {0, 1, 2, 3, 4}
   Shorts = {0, 1, 2}
+  Glitches = {"dataerr", "temperr", "shortwrite", "eofdata"}
 INIT Init
 NEXT Next
 VIEW View
-INVARIANTS TypeOK Prefix Complete NonceOnce InSync
+INVARIANTS TypeOK Prefix Complete NonceOnce InSync EofAfterAll
